@@ -1,15 +1,24 @@
 package spnego
 
 import (
+	"encoding/base64"
 	"errors"
+	"io"
 	"net/http"
+	"net/url"
 	"strings"
+	"time"
 
 	"github.com/jcmturner/goidentity/v6"
+	"github.com/jcmturner/gokrb5/v8/client"
+	"github.com/jcmturner/gokrb5/v8/config"
 	"github.com/jcmturner/gokrb5/v8/credentials"
+	"github.com/jcmturner/gokrb5/v8/crypto"
 	"github.com/jcmturner/gokrb5/v8/gssapi"
 	"github.com/jcmturner/gokrb5/v8/keytab"
+	"github.com/jcmturner/gokrb5/v8/messages"
 	"github.com/jcmturner/gokrb5/v8/service"
+	"github.com/jcmturner/gokrb5/v8/types"
 	"github.com/jcmturner/gokrb5/v8/zzverif"
 )
 
@@ -243,4 +252,218 @@ func VH_C03_TokenVerify() {
 		zzverif.Assert("accepted-ap-req-is-reported", !accepted)
 		zzverif.Assert("failure-status-not-complete", status.Code != gssapi.StatusComplete)
 	}
+}
+
+// ---- C18: the SPNEGO HTTP client authenticates once, replays the body, and terminates -------------------------
+
+const vhMaxRequests = 24 // 10 redirects, each target challenged once, plus slack
+
+type vhBody struct {
+	data []byte
+	off  int
+}
+
+func (b *vhBody) Read(p []byte) (int, error) {
+	if b.off >= len(b.data) {
+		return 0, io.EOF
+	}
+	n := copy(p, b.data[b.off:])
+	b.off += n
+	return n, nil
+}
+func (b *vhBody) Close() error { return nil }
+
+type vhEmpty struct{}
+
+func (vhEmpty) Read(p []byte) (int, error) { return 0, io.EOF }
+func (vhEmpty) Close() error               { return nil }
+
+// vhServer is the scripted server behind the client's transport.
+//
+//	0: 200   1: 401 bare Negotiate   2: 401 Negotiate + reject token   3: 401 other scheme
+//	4: 302 same host   5: 302 other host   6: 500   7: transport error
+type vhServer struct {
+	script  []int
+	tail    int
+	early   bool // the server may answer before it has read the whole request body
+	n       int
+	kinds   []int
+	auth    []string
+	hosts   []string
+	methods []string
+	bodies  [][]byte
+	partial []bool
+}
+
+func (s *vhServer) RoundTrip(req *http.Request) (*http.Response, error) {
+	k := s.tail
+	if s.n < len(s.script) {
+		k = s.script[s.n]
+	}
+	s.n++
+	zzverif.Assert("bounded-number-of-requests", s.n <= vhMaxRequests)
+	if s.n > vhMaxRequests {
+		k = 7 // lets the native run end
+	}
+	s.kinds = append(s.kinds, k)
+	s.auth = append(s.auth, req.Header.Get("Authorization"))
+	s.hosts = append(s.hosts, req.URL.Host)
+	s.methods = append(s.methods, req.Method)
+	var got []byte
+	part := false
+	if req.Body != nil {
+		if s.early && zzverif.Bool() {
+			one := make([]byte, 1)
+			n, _ := req.Body.Read(one)
+			got, part = one[:n], true
+		} else {
+			got, _ = io.ReadAll(req.Body)
+		}
+		req.Body.Close()
+	}
+	s.bodies = append(s.bodies, got)
+	s.partial = append(s.partial, part)
+	resp := &http.Response{StatusCode: 200, Header: http.Header{}, Body: vhEmpty{}, Request: req}
+	switch k {
+	case 1:
+		resp.StatusCode = 401
+		resp.Header.Set("WWW-Authenticate", "Negotiate")
+	case 2:
+		resp.StatusCode = 401
+		resp.Header.Set("WWW-Authenticate", spnegoNegTokenRespReject)
+	case 3:
+		resp.StatusCode = 401
+		resp.Header.Set("WWW-Authenticate", "Basic realm=x")
+	case 4:
+		resp.StatusCode = 302
+		resp.Header.Set("Location", "/next")
+	case 5:
+		resp.StatusCode = 302
+		resp.Header.Set("Location", "http://h2/")
+	case 6:
+		resp.StatusCode = 500
+	case 7:
+		return nil, errors.New("connection reset")
+	case 8:
+		resp.StatusCode = 307
+		resp.Header.Set("Location", "/next")
+	}
+	return resp, nil
+}
+
+var vhCodes = []int{200, 401, 401, 401, 302, 302, 500, 0, 307}
+
+// vhTokenIsFor: what an acceptor holding the session key reads out of an Authorization header.
+func vhTokenIsFor(hdr string, tkt messages.Ticket, key types.EncryptionKey, crealm, cname string) bool {
+	if !strings.HasPrefix(hdr, "Negotiate ") {
+		return false
+	}
+	b, err := base64.StdEncoding.DecodeString(hdr[len("Negotiate "):])
+	if err != nil {
+		return false
+	}
+	var st SPNEGOToken
+	if st.Unmarshal(b) != nil || !st.Init || st.Resp {
+		return false
+	}
+	if len(st.NegTokenInit.MechTypes) < 1 || !st.NegTokenInit.MechTypes[0].Equal(gssapi.OIDKRB5.OID()) {
+		return false
+	}
+	var kt KRB5Token
+	if kt.Unmarshal(st.NegTokenInit.MechTokenBytes) != nil || !kt.IsAPReq() {
+		return false
+	}
+	a := kt.APReq
+	if a.PVNO != 5 || a.MsgType != 14 {
+		return false
+	}
+	sameTkt := zzverif.All(a.Ticket.TktVNO == tkt.TktVNO, a.Ticket.Realm == tkt.Realm, a.Ticket.SName.Equal(tkt.SName),
+		a.Ticket.EncPart.EType == tkt.EncPart.EType, a.Ticket.EncPart.KVNO == tkt.EncPart.KVNO, zzverif.EqBytes(a.Ticket.EncPart.Cipher, tkt.EncPart.Cipher))
+	if !sameTkt {
+		return false
+	}
+	// RFC 4120 key usage 11: AP-REQ authenticator, encrypted under the ticket's session key
+	ab, err := crypto.DecryptEncPart(a.EncryptedAuthenticator, key, 11)
+	if err != nil {
+		return false
+	}
+	var au types.Authenticator
+	if au.Unmarshal(ab) != nil {
+		return false
+	}
+	now := zzverif.Now()
+	fresh := zzverif.And(now.Sub(au.CTime) <= 5*time.Minute, au.CTime.Sub(now) <= 5*time.Minute)
+	// RFC 4121 4.1.1: checksum type 0x8003, 16-byte binding length, flags integ|conf
+	ck := au.Cksum.Checksum
+	gss := au.Cksum.CksumType == 0x8003 && len(ck) >= 24 && ck[0] == 16 && ck[1] == 0 && ck[2] == 0 && ck[3] == 0 &&
+		ck[20] == byte(gssapi.ContextFlagInteg|gssapi.ContextFlagConf) && ck[21] == 0 && ck[22] == 0 && ck[23] == 0
+	return zzverif.All(au.AVNO == 5, au.CRealm == crealm, len(au.CName.NameString) == 1 && au.CName.NameString[0] == cname, fresh, gss)
+}
+
+// VH_C18_Do: Client.Do against every scripted server behaviour of the given length plus constant tail.
+func VH_C18_Do() {
+	srv := &vhServer{early: zzverif.Param("early") == 1}
+	for i := 0; i < zzverif.Param("len"); i++ {
+		srv.script = append(srv.script, zzverif.Choose(0, zzverif.Param("kinds")-1))
+	}
+	srv.tail = zzverif.Choose(0, zzverif.Param("kinds")-1)
+	method := []string{"GET", "HEAD", "POST"}[zzverif.Param("method")]
+	var data []byte
+	req := &http.Request{Method: method, URL: &url.URL{Scheme: "http", Host: "h1", Path: "/"}, Header: http.Header{}}
+	if method == "POST" {
+		data = zzverif.Bytes(zzverif.Param("body"))
+		req.Body = &vhBody{data: data}
+		req.ContentLength = int64(len(data))
+		if zzverif.Param("getbody") == 1 {
+			req.GetBody = func() (io.ReadCloser, error) { return &vhBody{data: data}, nil }
+		}
+	}
+	spn := ""
+	if zzverif.Param("spn") == 1 {
+		spn = "HTTP/svc"
+	}
+	kcl := client.NewWithPassword("u", "R", "p", &config.Config{}) // config.New() consults os/user; the SPNEGO client reads nothing from it
+	tkt := messages.Ticket{TktVNO: 5, Realm: "R", SName: types.NewPrincipalName(1, "HTTP/h1"),
+		EncPart: types.EncryptedData{EType: 18, KVNO: 1, Cipher: zzverif.Bytes(2)}}
+	key := types.EncryptionKey{KeyType: int32(zzverif.Param("etype")), KeyValue: zzverif.Bytes(zzverif.Param("keylen"))}
+	for i := 0; i < vhMaxRequests+2; i++ {
+		zzverif.ScriptStub("Client).AffirmLogin", "val")
+		zzverif.ScriptStub("Client).GetServiceTicket", "val", tkt, key)
+	}
+	c := NewClient(kcl, &http.Client{Transport: srv}, spn)
+
+	resp, err := c.Do(req)
+
+	zzverif.Reach("returned")
+	last := srv.kinds[srv.n-1]
+	if err == nil {
+		zzverif.Reach("response")
+		zzverif.Assert("returns-the-servers-final-response", resp != nil && resp.StatusCode == vhCodes[last])
+	} else {
+		zzverif.Reach("error")
+	}
+	zzverif.Assert("first-request-unauthenticated", srv.auth[0] == "")
+	asked := 0
+	for i := 0; i < srv.n; i++ {
+		challenged := i > 0 && srv.kinds[i-1] == 1 && srv.auth[i-1] == ""
+		if challenged {
+			zzverif.Reach("challenged")
+			// the retry goes to the host that challenged, with a token for the intended service
+			want := spn
+			if want == "" {
+				want = "HTTP/" + srv.hosts[i-1]
+			}
+			zzverif.Assert("retry-after-challenge-same-target", srv.hosts[i] == srv.hosts[i-1] && srv.methods[i] == srv.methods[i-1])
+			zzverif.Assert("ticket-requested-for-the-intended-spn", asked < zzverif.CallCount("Client).GetServiceTicket") && zzverif.CallArg("Client).GetServiceTicket", asked, 1).(string) == want)
+			asked++
+			zzverif.Assert("authorization-token-accepted-by-acceptor", vhTokenIsFor(srv.auth[i], tkt, key, "R", "u"))
+		} else {
+			zzverif.Assert("authorization-only-after-a-challenge", srv.auth[i] == "")
+		}
+		if srv.methods[i] == "POST" && !srv.partial[i] {
+			zzverif.Reach("body-read")
+			zzverif.Assert("request-body-resent-intact", zzverif.EqBytes(srv.bodies[i], data))
+		}
+	}
+	zzverif.Assert("one-ticket-request-per-challenge", asked == zzverif.CallCount("Client).GetServiceTicket"))
 }
